@@ -20,6 +20,10 @@ def script_await(ctx, R):
                 return True
         return False
     c = [a for a in awaits(R) if a.producer is None and a.fut_local is not None and R.origin(a.into_bb) == R.name and from_own_env(a.fut_local)]
+    if not c:
+        # the runner is given a factory (`build: impl FnOnce() -> F`) and awaits `build()`: the call of a parameter
+        c = [a for a in awaits(R) if a.producer is not None and R.origin(a.into_bb) == R.name and re.search(r"ops::(FnOnce|FnMut|Fn)>?::call(_once|_mut)?$", callee_base(a.producer[1]))
+             and a.producer[1]["args"] and operand_local(a.producer[1]["args"][0]) is not None and from_own_env(operand_local(a.producer[1]["args"][0]))]
     ctx.need(len(c) == 1, f"the await of the script future (a parameter) in the incremental runner; found {len(c)}")
     return c[0]
 
@@ -387,11 +391,23 @@ def fs_eq(ctx):
                 fn_name = ctx.r.fn_of(f.bodies[pfn]).name
                 def listed(d):
                     return d[0] == "call" and re.search(r"::(contains|contains_key)$", d[1]) is not None
-                G = guard_region(b, listed, True)
-                sites_ = [cb for cb, ct in b.calls() if callee_base(ct) == fn_name]
-                paired_at_site = bool(sites_) and all(cb in G for cb in sites_)
+                found_sites = []
+                for xn in [b.name] + sorted(x for x in f.cg.reach([b.name], cross_spawn=False) if x.startswith(b.name + "::")):
+                    xb = f.view(xn) if xn != b.name else b
+                    G = guard_region(xb, listed, True)
+                    # ... or the helper is applied to the record found for the file (`Some(&saved) => is_unchanged(&file, saved)`)
+                    for e in xb.edges:
+                        if e.label and e.label[0] == "variant" and e.label[2] == ("Some",) and origin_matches(edge_origin(xb, e), is_call_of(lambda c: c.endswith("::get"))):
+                            G = G | xb.dominated_by_edge(e)
+                    found_sites += [(cb in G) for cb, ct in xb.calls() if callee_base(ct) == fn_name]
+                paired_at_site = bool(found_sites) and all(found_sites)
             for (p, facts, ro) in tps2:
                 some = paired_at_site or has_fact(facts, "variant", ("Some",), is_call_of(lambda c: c.endswith("::get")))
+                if not some:
+                    # ... or the block is handed a (listed path, recorded path, recorded state) triple and first requires the two paths to be equal
+                    def path_cmp(which):
+                        return lambda o: o[0] == "call" and re.search(r"PartialEq(<.*>)?>?::" + which + "$", o[1]) is not None and "Path" in o[3]["callee"]["declared"]
+                    some = has_fact(facts, "bool", True, path_cmp("eq")) or has_fact(facts, "bool", False, path_cmp("ne"))
                 mt_ok = has_fact(facts, "variant", ("Ok",), is_await_of(lambda c: c in mt))
                 def dur_eq(o):
                     return o[0] == "call" and o[1].endswith("PartialEq>::eq") and "Duration" in o[3]["callee"]["declared"]
@@ -1032,6 +1048,24 @@ def cardinality_over_sets(ctx):
             if l is None or depth > 12:
                 return False
             if re.search(SETTY, b.locals[l]["ty"]):
+                return True
+            # a vector that was sorted and then `dedup`ed holds distinct elements too
+            srcs = set(b.prov.source_locals(l, interproc=False))
+            def on_src(t):
+                r0 = t["args"][0] if t["args"] else None
+                if not r0 or r0["k"] not in ("copy", "move"):
+                    return False
+                tg = {r0["place"]["local"]} | {st["rv"]["place"]["local"] for kind, st, _ in b.prov.defs.get(r0["place"]["local"], ()) if kind == "assign" and st["rv"]["k"] == "ref"}
+                # through the auto-deref of `Vec` to a slice
+                for x in list(tg):
+                    for kind, st, _ in b.prov.defs.get(x, ()):
+                        if kind == "call" and re.search(r"Deref(Mut)?>?::deref(_mut)?$", callee_base(st)) and st["args"] and operand_local(st["args"][0]) is not None:
+                            y = operand_local(st["args"][0])
+                            tg |= {y} | {s2["rv"]["place"]["local"] for k2, s2, _ in b.prov.defs.get(y, ()) if k2 == "assign" and s2["rv"]["k"] == "ref"}
+                return bool(tg & srcs)
+            sorts = [bb for bb, t in b.calls() if re.search(r"::(sort|sort_unstable|sort_by\w*|sort_unstable_by\w*)(::<.*>)?$", callee_base(t)) and on_src(t)]
+            dedups = [bb for bb, t in b.calls() if re.search(r"Vec::<.*>::(dedup|dedup_by|dedup_by_key)(::<.*>)?$", callee_decl(t)) and on_src(t)]
+            if sorts and dedups and any(b.dominates(s_, d_) for s_ in sorts for d_ in dedups):
                 return True
             os_ = [o for o in origins(b, l) if o[0] != "await"] or origins(b, l)
             if not os_:
